@@ -13,7 +13,8 @@
 (***************************************************************************)
 EXTENDS LeastAction, CharPoly, Json, IOUtils
 
-Sessions == JsonDeserialize(IOEnv.TRACE_FILE)
+\* the file is parsed ONCE: S is bound to the parsed value by enumerating a singleton
+AllSessions == UNION {{S[i] : i \in 1..Len(S)} : S \in {JsonDeserialize(IOEnv.TRACE_FILE)}}
 
 IdxOf(seq, x) == CHOOSE i \in 1..Len(seq) : seq[i] = x
 
@@ -27,7 +28,7 @@ ToRaw(s) == LET os == OrderSeq(s.k, s.N)
                  H  |-> TLCEval([n \in OrdersUpTo(s.k, s.N) |-> s.H[IdxOf(os, n)]]),
                  LU |-> F("U"), LUd |-> F("Ud"), LHt |-> F("Ht"),
                  spectrum |-> s.spectrum, ordsLogged |-> s.ords]
-TraceRaw == {ToRaw(Sessions[i]) : i \in 1..Len(Sessions)}
+TraceRaw == {ToRaw(s) : s \in AllSessions}
 
 VARIABLES fails, phase      \* phase: "solve" | "spectrum" | "done"
 tvars == <<lavars, fails, phase>>
